@@ -14,6 +14,9 @@ import (
 	"fmt"
 	"math/big"
 	"os"
+	"path/filepath"
+	"sort"
+	"strings"
 
 	sdkmath "cosmossdk.io/math"
 	codectypes "github.com/cosmos/cosmos-sdk/codec/types"
@@ -29,35 +32,42 @@ import (
 )
 
 func (h *harness) replayKnown() {
-	// --- claim amounts ---
+	// --- claim amounts (finding C20-6, repaired by edafc05): a negative or absent amount must be refused by ValidateBasic;
+	//     should it ever be accepted again, the real attestation handler is run on it to show the panic ---
 	fx := h.c.SetupFX([]string{"eth"})
 	contractAddr := fx.Aliases[0].Contract
 	ext := func(i int) string { return lib.ExternalAccount(h.seed, "eth", i) }
-	for _, variant := range []string{"negative", "absent"} {
+	for _, variant := range []string{"negative", "absent", "valid"} {
 		m := &crosschaintypes.MsgBridgeCallClaim{ChainName: "eth", BridgerAddress: h.p.accOK[0], EventNonce: 1, BlockHeight: 10, Sender: ext(1), Refund: ext(1),
 			TokenContracts: []string{contractAddr}, Amounts: []sdkmath.Int{sdkmath.NewInt(-1)}, To: ext(2), Data: "", Value: sdkmath.ZeroInt(), Memo: "", TxOrigin: ext(1)}
 		var ops []wireOp
-		if variant == "absent" {
+		switch variant {
+		case "absent":
 			m.Amounts[0] = sdkmath.ZeroInt()
 			ops = []wireOp{{Path: []wstep{{fieldNum(m, "Amounts"), 0}}, Op: "empty"}}
+		case "valid":
+			m.Amounts[0] = sdkmath.NewInt(5)
 		}
 		var decoded *crosschaintypes.MsgBridgeCallClaim
 		o := h.wireRun(m, ops, func(x proto.Message) error { decoded = x.(*crosschaintypes.MsgBridgeCallClaim); return decoded.ValidateBasic() })
 		h.rep.Case("replay|claim-amount|"+variant+"|validate|"+o.Class, true)
+		h.rep.Count("replay:claim-amount:" + variant + ":validate:" + o.Class)
 		if o.Class != "ok" {
-			h.rep.Notes = append(h.rep.Notes, fmt.Sprintf("MsgBridgeCallClaim with a %s amount is no longer accepted by ValidateBasic (%s): the C20_must_safe_BridgeCallClaim_amounts refutation no longer replays", variant, o.Msg))
+			if variant == "valid" {
+				h.rep.Fail(lib.Failure{Kind: "harness", What: "the valid MsgBridgeCallClaim of the amounts replay is refused: " + o.Msg, Sig: "tie"})
+			}
 			continue
 		}
+		// accepted: the handler the attestation runs must cope with it
 		ctx, _ := h.c.Ctx.CacheContext()
 		k := h.c.XKeeper("eth")
 		d := guard(func() error { return k.BridgeCallHandler(ctx, decoded) })
 		h.rep.Case("replay|claim-amount|"+variant+"|handler|"+d.Class, true)
-		h.rep.Count("replay:claim-amount:" + variant + ":" + d.Class)
+		h.rep.Count("replay:claim-amount:" + variant + ":handler:" + d.Class)
 		if d.Class == "panic" {
 			bz, _ := marshalGuard(decoded)
 			h.fail("handler", "recovered-by-baseapp", d, "a "+variant+" MsgBridgeCallClaim amount passes ValidateBasic and the attestation handler panics",
-				map[string]interface{}{"stage": "replay", "claim_hex": fmt.Sprintf("%x", bz), "variant": variant, "panic": d.Msg, "top_frame": d.Top,
-					"model_witness": "P_Validate.claim_negative_amount / claim_absent_amount"})
+				map[string]interface{}{"stage": "replay", "claim_hex": fmt.Sprintf("%x", bz), "variant": variant, "panic": d.Msg, "top_frame": d.Top})
 		}
 	}
 	// --- decoder facts ---
@@ -104,6 +114,15 @@ func (h *harness) replayKnown() {
 
 // replayFile re-runs one recorded failing input (the "replay" object of out/replay/C20-*.json, or a corpus file) on the real code.
 func (h *harness) replayFile(path string) {
+	res := h.replayObject(path, nil, true)
+	fmt.Printf("replay: result %s\n", res)
+	for _, f := range h.rep.Failures {
+		fmt.Printf("replay: FAILURE %s\n        %s\n", f.Sig, f.What)
+	}
+}
+
+// replayObject returns "panic" | "rejected" | "accepted" | "n/a".
+func (h *harness) replayObject(path string, e *anteEnv, verbose bool) string {
 	raw, err := os.ReadFile(path)
 	lib.Must(err)
 	var obj map[string]interface{}
@@ -114,22 +133,58 @@ func (h *harness) replayFile(path string) {
 	}
 	str := func(k string) string { s, _ := rp[k].(string); return s }
 	unhex := func(k string) []byte { b, _ := hex.DecodeString(str(k)); return b }
+	say := func(format string, a ...interface{}) {
+		if verbose {
+			fmt.Printf(format, a...)
+		}
+	}
+	classOf := func(o outcome) string {
+		switch o.Class {
+		case "panic":
+			return "panic"
+		case "err":
+			return "rejected"
+		}
+		return "accepted"
+	}
 	switch {
 	case str("msg_bytes_hex") != "" || str("type_url") != "":
-		_, outs := h.instance("replay", str("type_url"), unhex("msg_bytes_hex"), "replay")
-		for ep, o := range outs {
-			fmt.Printf("replay: %s %s -> %s %s (site %s)\n", str("type_url"), ep, o.Class, o.Msg, o.Site)
+		decoded, outs := h.instance("corpus", str("type_url"), unhex("msg_bytes_hex"), "corpus replay "+path)
+		if !decoded {
+			return "rejected"
 		}
+		res := "accepted"
+		for ep, o := range outs {
+			say("replay: %s %s -> %s %s (site %s)\n", str("type_url"), ep, o.Class, o.Msg, o.Site)
+			if ep == "legacyGetSigners" {
+				continue
+			}
+			if c := classOf(o); c == "panic" || (c == "rejected" && res != "panic") {
+				res = c
+			}
+		}
+		return res
 	case str("tx_bytes_hex") != "":
-		e := h.newAnteEnv()
+		if e == nil {
+			e = h.corpusEnv()
+		}
 		bz := unhex("tx_bytes_hex")
+		var cls string
 		if str("route") == "FinalizeBlock" {
 			bz = h.refreshSequence(bz, e)
-			res := h.deliver([][]byte{bz}, []string{"replay"})
-			fmt.Printf("replay: FinalizeBlock -> %v\n", res)
+			cls = h.deliver([][]byte{bz}, []string{"corpus replay " + path})[0]
+			h.refreshAccounts(e)
 		} else {
-			fmt.Printf("replay: CheckTx -> %s\n", h.checkTx(e, bz, "replay"))
+			cls = h.checkTx(e, bz, "corpus replay "+path)
 		}
+		say("replay: %s -> %s\n", str("route"), cls)
+		switch {
+		case strings.HasPrefix(cls, "PANIC"):
+			return "panic"
+		case cls == "accepted":
+			return "accepted"
+		}
+		return "rejected"
 	case str("calldata_hex") != "":
 		caller := h.p.keys[1]
 		h.c.Mint(caller.Acc(), lib.FX(100_000))
@@ -142,13 +197,36 @@ func (h *harness) replayFile(path string) {
 		if v == nil {
 			v = big.NewInt(0)
 		}
-		_, o := h.evmCall(ctx, caller.Hex(), addr, v, 3_000_000, unhex("calldata_hex"))
-		fmt.Printf("replay: evm call -> %s %s (site %s)\n", o.Class, o.Msg, o.Site)
+		res, o := h.evmCall(ctx, caller.Hex(), addr, v, 3_000_000, unhex("calldata_hex"))
+		say("replay: evm call -> %s %s (site %s)\n", o.Class, o.Msg, o.Site)
 		if o.Class == "panic" {
 			h.fail("precompile-run", "recovered-by-baseapp", o, "precompile panics (replay)", map[string]interface{}{"calldata_hex": str("calldata_hex")})
+			return "panic"
 		}
+		if o.Class == "err" || (res != nil && res.Failed()) {
+			return "rejected"
+		}
+		return "accepted"
 	case str("claim_hex") != "":
-		h.replayKnown()
+		var res string
+		o := guard(func() error {
+			m := new(crosschaintypes.MsgBridgeCallClaim)
+			if err := proto.Unmarshal(unhex("claim_hex"), m); err != nil {
+				return err
+			}
+			return m.ValidateBasic()
+		})
+		res = classOf(o)
+		say("replay: MsgBridgeCallClaim.ValidateBasic -> %s %s\n", o.Class, o.Msg)
+		if res == "accepted" && verbose {
+			// stand-alone replay: the handler side is shown by replayKnown on a claim it builds itself (check mode runs it anyway)
+			before := h.sigs["C20:panic:recovered-by-baseapp:handler:fx:x/crosschain/keeper.Keeper.BridgeTokenToBaseCoin"]
+			h.replayKnown()
+			if h.sigs["C20:panic:recovered-by-baseapp:handler:fx:x/crosschain/keeper.Keeper.BridgeTokenToBaseCoin"] > before {
+				return "panic"
+			}
+		}
+		return res
 	case str("function") != "":
 		in := string(unhex("input_hex"))
 		o := guard(func() error {
@@ -162,12 +240,51 @@ func (h *harness) replayFile(path string) {
 				return nil
 			}
 		})
-		fmt.Printf("replay: %s -> %s %s\n", str("function"), o.Class, o.Msg)
-	default:
-		fmt.Println("replay: nothing replayable in", path)
+		say("replay: %s -> %s %s\n", str("function"), o.Class, o.Msg)
+		return classOf(o)
 	}
-	for _, f := range h.rep.Failures {
-		fmt.Printf("replay: FAILURE %s\n        %s\n", f.Sig, f.What)
+	say("replay: nothing replayable in %s\n", path)
+	return "n/a"
+}
+
+// corpusEnv: the recorded transactions were signed with the keys of seed 1: fund exactly those accounts.
+func (h *harness) corpusEnv() *anteEnv {
+	saved := h.p
+	h.p = newPools(1)
+	e := h.newAnteEnv()
+	h.p = saved
+	return e
+}
+
+// stageCorpus replays every file of corpus/C20 in check mode. The inputs recorded for the repaired fx-core findings
+// (C20-1 … C20-6) must now be REJECTED WITHOUT A PANIC; a panic is a monitor failure under its ordinary signature, an
+// acceptance is a monitor failure of its own. The dep-* files (C20-7/8, dependency code) are replayed to keep the
+// KNOWN-FINDING lines deterministic.
+func (h *harness) stageCorpus() {
+	dir := os.Getenv("VERIF_CORPUS")
+	if dir == "" {
+		dir = "../corpus/C20"
+	}
+	files, _ := filepath.Glob(filepath.Join(dir, "*.json"))
+	sort.Strings(files)
+	if len(files) == 0 {
+		h.rep.Count("corpus:none-found")
+		return
+	}
+	e := h.corpusEnv()
+	for _, f := range files {
+		name := strings.TrimSuffix(filepath.Base(f), ".json")
+		res := h.replayObject(f, e, false)
+		h.rep.Count("corpus:" + name + ":" + res)
+		h.rep.Case("corpus|"+name+"|"+res, true)
+		if strings.HasPrefix(name, "dep-") {
+			continue
+		}
+		if res != "rejected" {
+			h.rep.Fail(lib.Failure{Kind: "monitor", Sig: "C20:corpus:" + name + ":" + res,
+				What:   fmt.Sprintf("the recorded input of a repaired finding (%s) is no longer rejected with an error: %s", name, res),
+				Replay: map[string]interface{}{"stage": "corpus", "file": f, "result": res}})
+		}
 	}
 }
 
